@@ -105,6 +105,23 @@ def classify(body, subj_pred, start=0, stops=None, start_set=FULL, max_paths=200
                     if s2 and t["otherwise"] not in path:
                         stack.append((t["otherwise"], path + [t["otherwise"]], s2))
                     handled = True
+            elif isinstance(e, tuple) and e[0] == "call" and e[1].split("::")[-1].startswith("contains") and len(e[2]) == 2:
+                # b"...".contains(&subject): membership in a constant byte set
+                hay, needle = e[2]
+                h = hay
+                while isinstance(h, tuple) and h[0] in ("ref", "deref", "cast"):
+                    h = h[1]
+                if isinstance(h, tuple) and h[0] == "const" and h[1] == "bytes" and _is_subject(needle, subj_pred):
+                    cs = frozenset(ord(c) for c in h[2])
+                    for v, tgt in arms:
+                        s2 = (S & cs) if v == 1 else (S - cs)
+                        if s2 and tgt not in path:
+                            stack.append((tgt, path + [tgt], s2))
+                    vals = [v for v, _ in arms]
+                    s2 = (S & cs) if (0 in vals and 1 not in vals) else ((S - cs) if (1 in vals and 0 not in vals) else frozenset())
+                    if s2 and t["otherwise"] not in path:
+                        stack.append((t["otherwise"], path + [t["otherwise"]], s2))
+                    handled = True
             elif isinstance(e, tuple) and e[0] == "const" and e[1] in ("bool", "int"):
                 v = int(e[2])
                 tgt = None
